@@ -454,6 +454,7 @@ fn validator_cfg(b: &Base, supply: &Option<Option<String>>, default_parser: bool
         expected: vec![],
         validators: vec![VSpec { claim: Claim::Custom("k".into(), json!(1)), behave: VBehave::Accept, reg: VReg::ValidateClaim }],
         default_parser,
+        expected_via_extend: false,
     }
 }
 
